@@ -74,6 +74,10 @@ type Case struct {
 	// in a tight loop (a delete as create+delete of the goroutine's own name),
 	// so that operations of different goroutines really overlap.
 	Reps int `json:"reps,omitempty"`
+	// race mode: Creators goroutines create the same fresh name at the same
+	// moment, Rounds times (a new name each round)
+	Creators int `json:"creators,omitempty"`
+	Rounds   int `json:"rounds,omitempty"`
 }
 
 // ---------------------------------------------------------------------------
@@ -139,6 +143,11 @@ func genConc(t *rapid.T) Case {
 	c := genMode("conc", 2, 4)(t)
 	c.Reps = rapid.SampledFrom([]int{1, 1, 50, 2000}).Draw(t, "reps")
 	return c
+}
+func genRace(t *rapid.T) Case {
+	return Case{Mode: "race",
+		Creators: rapid.IntRange(2, 8).Draw(t, "creators"),
+		Rounds:   rapid.SampledFrom([]int{500, 2000, 5000}).Draw(t, "rounds")}
 }
 func genE2E(t *rapid.T) Case { return genMode("e2e", batchSize()/3, batchSize()/2)(t) }
 
@@ -807,12 +816,66 @@ func checkConc(c Case) *core.Violation {
 	return nil
 }
 
+// checkRace: names are unique among live pipes also when several goroutines
+// create the same name at the same moment: exactly one create succeeds, the
+// others are refused, and the name leads to one pipe.
+func checkRace(c Case) *core.Violation {
+	reg := newAPIRegistry()
+	k, rounds := c.Creators, c.Rounds
+	if k < 2 {
+		k = 2
+	}
+	if k > 16 {
+		k = 16
+	}
+	if rounds < 1 {
+		rounds = 1
+	}
+	if rounds > 20000 {
+		rounds = 20000
+	}
+	errs := make([]error, k)
+	for r := 0; r < rounds; r++ {
+		name := fmt.Sprintf("race%d", r)
+		var start, done sync.WaitGroup
+		start.Add(1)
+		for g := 0; g < k; g++ {
+			done.Add(1)
+			go func(g int) {
+				defer done.Done()
+				start.Wait()
+				errs[g] = reg.create(name)
+			}(g)
+		}
+		start.Done()
+		done.Wait()
+		won := 0
+		for g := 0; g < k; g++ {
+			if errs[g] == nil {
+				won++
+			}
+		}
+		if won != 1 {
+			return core.Violf("create-race", "round %d: %d goroutines created the pipe %q at the same moment and %d of them were told it worked (results: %v): names are not unique among live pipes", r, k, name, won, errs)
+		}
+		if typ := reg.dump()[name]; typ != "std" {
+			return core.Violf("create-race", "round %d: after the creates Dump shows %q for %q", r, typ, name)
+		}
+		// keep the registry small: the name is deleted, not closed (no 2 s closer)
+		reg.delete(name)
+	}
+	core.Count("race_rounds", rounds)
+	return nil
+}
+
 func check(c Case) *core.Violation {
 	switch c.Mode {
 	case "seq", "e2e", "":
 		return checkSeq(c)
 	case "conc":
 		return checkConc(c)
+	case "race":
+		return checkRace(c)
 	}
 	return core.Violf("bad-case", "unknown mode %q", c.Mode)
 }
@@ -874,6 +937,10 @@ func shapeOfMode(ops []Op, mode string) (s shape) {
 }
 
 func classify(c Case) core.Class {
+	if c.Mode == "race" {
+		// every round is a simultaneous create of one name
+		return core.Class{NonTrivial: true, Label: "race"}
+	}
 	var u shape
 	for _, h := range c.Histories {
 		s := shapeOfMode(h, c.Mode)
@@ -966,6 +1033,7 @@ func withGen(g func(*rapid.T) Case) core.Spec[Case] { s := spec; s.Gen = g; retu
 func TestPropSeq(t *testing.T)  { core.RunProp(t, withGen(genSeq)) }
 func TestPropConc(t *testing.T) { core.RunProp(t, withGen(genConc)) }
 func TestPropE2E(t *testing.T)  { core.RunProp(t, withGen(genE2E)) }
+func TestPropRace(t *testing.T) { core.RunProp(t, withGen(genRace)) }
 func TestReplay(t *testing.T)   { core.Replay(t, spec) }
 
 // TestKnownOf tells the driver which known finding a process-killing case
